@@ -87,15 +87,16 @@ def leafRange : LeafKind → Option (Int × Int)
   | .decimal _ _ => none
 
 mutual
-/-- values in physical range, offsets within i32/i64, string data valid UTF-8 -/
+/-- values in physical range, offsets within i32/i64, string data valid UTF-8.  Purely a property of the stored
+values/offsets/bytes (no `dec`, independent of `WFB`). -/
 def WFX : B → Prop
   | .leaf _ k _ vals => ∀ r, leafRange k = some r → inRng r vals = true
   | .bytes _ ty _ offs data =>
-    (data.length : Int) ≤ offMax (isLargeTy ty) ∧ (isUtf8Ty ty = true → bytesUtf8 offs data = true)
+    (∀ o ∈ offs, o ≤ offMax (isLargeTy ty)) ∧ (isUtf8Ty ty = true → bytesUtf8 offs data = true)
   | .bytesView _ ty _ views buf => ty = .utf8View → ∀ d ∈ views, validUtf8 (viewBytes buf d) = true
-  | .list _ large _ _ _ el => ((dec el).length : Int) ≤ offMax large ∧ WFX el
+  | .list _ large _ _ offs el => (∀ o ∈ offs, o ≤ offMax large) ∧ WFX el
   | .fixedSizeList _ _ _ _ _ _ el => WFX el
-  | .map _ _ _ _ ks vs => ((dec ks).length : Int) ≤ 2147483647 ∧ WFX ks ∧ WFX vs
+  | .map _ _ _ offs ks vs => (∀ o ∈ offs, o ≤ 2147483647) ∧ WFX ks ∧ WFX vs
   | .struct _ _ _ fs _ _ _ => WFXL fs
   | .dictionary _ idx vals _ => WFX idx ∧ WFX vals
   | .union _ fs _ _ _ => WFXL fs
@@ -134,8 +135,12 @@ theorem OffsOK_mem (offs : List Int) (n : Nat) (h : OffsOK offs n) (o : Int) (ho
     simp only [Option.some.injEq] at hl
     omega
 
-theorem offsetsOk_of (offs : List Int) (n : Nat) (m : Int) (h : OffsOK offs n) (hm : (n : Int) ≤ m) :
+theorem OffsOK_last_le (offs : List Int) (n : Nat) (m : Int) (h : OffsOK offs n) (hm : ∀ o ∈ offs, o ≤ m) :
+    (n : Int) ≤ m := hm _ (List.mem_of_getLast? h.2.1)
+
+theorem offsetsOk_of (offs : List Int) (n : Nat) (m : Int) (h : OffsOK offs n) (hm' : ∀ o ∈ offs, o ≤ m) :
     offsetsOk offs n m = true := by
+  have hm := OffsOK_last_le offs n m h hm'
   simp only [offsetsOk, Bool.and_eq_true, beq_iff_eq, List.all_eq_true, decide_eq_true_eq]
   refine ⟨⟨⟨h.1, h.2.1⟩, ?_⟩, ?_⟩
   · intro ab hab
